@@ -17,6 +17,15 @@ import common  # noqa: E402
 MODULE = "select"
 ADAPTER = "select_impl.py"
 
+
+def strip_flags(line):
+    """` !flag` suffixes are the adapter's view / route / history assertions: judged by the oracle, unknown to the model"""
+    return line.split(" !")[0].rstrip() if " !" in line else line
+
+
+def same(a, b):
+    return strip_flags(a) == strip_flags(b) or (strip_flags(a) + " ").rstrip() == b.rstrip()
+
 META = ("manifest", "gather", "prefetch", "search")
 SIMPLE = ("md5", "md5prefix8", "md5short", "name", "ident", "identprefix")
 MANIFEST_KINDS = ("multi", "multidir", "multipl", "zip", "smi")
@@ -136,6 +145,18 @@ def crit_args(rng, pool, pls, q=None):
         return out
     out = []
     ks = sorted({s.ksize for s in pool}) + [21, 31, 7]
+    if rng.random() < 0.03:
+        # a moltype spelled in another case: refused by every container
+        return [rng.choice(["m=dna", "m=Protein"])] + ([f"k={rng.choice(ks)}"] if rng.random() < 0.5 else [])
+    if rng.random() < 0.08:
+        # everything at once, consistent with one pool member (plus a picklist when there is one)
+        t = rng.choice(pool)
+        out = [f"k={t.ksize}", f"m={t.mol}", f"s={t.scaled}", f"n={t.num}", f"a={rng.choice(['None', '0', '1'])}",
+               f"c={int(bool(t.scaled) and rng.random() < 0.5)}"]
+        if pls and rng.random() < 0.7:
+            out.append("p=" + str(rng.choice(pls)))
+        rng.shuffle(out)
+        return out
     if rng.random() < 0.5:
         out.append("k=" + ("None" if rng.random() < 0.15 else str(rng.choice(ks))))
     if rng.random() < 0.4:
@@ -265,10 +286,51 @@ def gen_twins_case(rng):
     return lines
 
 
+def gen_plarg_lines(rng, n):
+    """`--picklist` argument strings: every coltype, default / explicit / misspelt style, wrong field counts, a ':' in the
+    path, a column name given to a tuple coltype"""
+    out = []
+    for _ in range(n):
+        ct = rng.choice(META + SIMPLE + ("md5prefix", "Name", ""))
+        col = "" if (ct in META and rng.random() < 0.8) else rng.choice(["col", "name", "match_md5", ""])
+        path = rng.choice(["pick.csv", "dir/pick.csv", "a b.csv", "c:x.csv", "p.csv.gz", ""])
+        parts = [path, col, ct]
+        r = rng.random()
+        if r < 0.45:
+            parts.append(rng.choice(["include", "exclude", "exclude"]))
+        elif r < 0.6:
+            parts.append(rng.choice(["Exclude", "EXCLUDE", "exc", "excluded", "", "include ", "in"]))
+        elif r < 0.68:
+            parts = parts[:2]
+        elif r < 0.74:
+            parts += ["exclude", "x"]
+        out.append("plarg " + hx(":".join(parts)))
+    return out
+
+
+def parse_picklist_arg(arg):
+    """the documented format 'pickfile:column:coltype[:pickstyle]' (class docstring / `--picklist` help); -> tuple or None"""
+    f = arg.split(":")
+    excl = False
+    if len(f) == 4:
+        if f[3] not in ("include", "exclude"):
+            return None
+        excl = f[3] == "exclude"
+        f = f[:3]
+    if len(f) != 3:
+        return None
+    path, col, ct = f
+    if ct not in META + SIMPLE:
+        return None
+    if ct in META and col:
+        return None
+    return (ct, "exc" if excl else "inc", col, path)
+
+
 def gen_case(rng, flavour):
     """flavours: mixed | inplace | sqlite | picklists | collide | twins"""
     if flavour == "twins":
-        return gen_twins_case(rng)
+        return gen_twins_case(rng) + gen_plarg_lines(rng, 2)
     lines = []
     pool = []
     nsig = rng.randint(4, 8)
@@ -429,6 +491,8 @@ def gen_case(rng, flavour):
         ct = rng.choice(META + SIMPLE + SIMPLE)
         lines.append(" ".join([f"pl {p} {ct} {sty}"] + pl_values(rng, ct, pool)))
         pls.append(p)
+    if flavour == "picklists":
+        lines += gen_plarg_lines(rng, 3)
     # chains
     for c, kind, ms in colls:
         nchains = 1 if kind in INPLACE else rng.randint(1, 3)
@@ -568,6 +632,28 @@ def oracle(case, impl):
         if not w or obs == "bad-op":
             continue
         op = w[0]
+        flags = [f for f in obs.split(" !")[1:]] if " !" in obs else []
+        obs = strip_flags(obs)
+        if flags and op in ("sel", "sigs", "search") and len(w) > 1:
+            hh = int(w[2]) if op == "sel" else int(w[1])
+            oo = objs.get(handles.get(hh))
+            kind = oo["kind"] if oo else "?"
+            for f in flags:
+                name = f.split("=")[0].split(":")[0].rstrip("0123456789")
+                if name in ("len", "bool") and kind in ("sbt", "sbtz", "lca") and oo and any("p" in cr for cr in oo["chain"]):
+                    bad.append((idx, "C12:len-ignores-picklists",
+                                f"len()/bool() of a {kind} collection restricted by a picklist still counts the unrestricted "
+                                f"collection ({f}; signatures() lists {obs.split(' ')[1] if obs.startswith('ok') else '?'})"))
+                elif name in ("len", "bool", "manifest") and kind in ("smi", "sqlmf"):
+                    pass        # the manifest of a standalone index vs what it re-reads: judged with the listing (C12.3)
+                elif name == "best":
+                    bad.append((idx, "C12:best-only-search-influenced-by-deselected",
+                                f"best_containment() on a {kind} collection after select {oo['chain'] if oo else '?'} finds nothing / "
+                                f"something outside although search() finds selected matches: a deselected signature with a better score "
+                                f"raises the best-only threshold before the picklist is applied"))
+                else:
+                    bad.append((idx, f"C12:view:{name}:{kind}",
+                                f"two ways of reading a {kind} collection disagree at `{line[:80]}`: {f}"))
         try:
             if op == "sig":
                 i, k, mol, num, sc, ab, md5, name, hs = w[1:]
@@ -583,7 +669,20 @@ def oracle(case, impl):
                 ms = [sigs[int(x)] for x in w[3].split(",")] if w[3] != "-" else []
                 handles[int(w[1])] = nobj
                 objs[nobj] = {"kind": w[2], "members": ms, "chain": [], "dead": False}
+                if w[2] == "lca" and len(w) >= 7:
+                    objs[nobj]["params"] = (int(w[4]), w[5], int(w[6]))
                 nobj += 1
+            elif op == "plarg":
+                exp = parse_picklist_arg(unhex(w[1]))
+                if exp is None:
+                    if obs != "err ValueError":
+                        bad.append((idx, "C12:picklist-argument-parsing",
+                                    f"--picklist {unhex(w[1])!r} is not of the form file:col:coltype[:include|exclude] but gave {obs}"))
+                else:
+                    want = f"ok {exp[0]} {exp[1]} {hx(exp[2])} {hx(exp[3])}"
+                    if obs != want:
+                        bad.append((idx, "C12:picklist-argument-parsing",
+                                    f"--picklist {unhex(w[1])!r} means {exp} but gave {obs}"))
             elif op == "pl":
                 p, ct, sty = int(w[1]), w[2], w[3]
                 if not obs.startswith("ok"):
@@ -626,6 +725,11 @@ def oracle(case, impl):
                 crit = dict(kv.split("=") for kv in w[3:])
                 if "p" in crit and int(crit["p"]) not in pls:
                     continue
+                if crit.get("m") in ("dna", "Protein"):
+                    if obs != "err ValueError":
+                        bad.append((idx, f"C12:unknown-moltype-accepted:{o['kind']}",
+                                    f"select(moltype={crit['m']!r}) on a {o['kind']} collection: {obs} (an unknown moltype is a ValueError)"))
+                    continue
                 if o["dead"]:
                     if not obs.startswith("err") and o["kind"] not in INPLACE:
                         handles[r] = nobj
@@ -643,6 +747,10 @@ def oracle(case, impl):
                         for cr in o["chain"] + [crit]:
                             full.update(cr)
                         bad.append(classify_crash(idx, cls, o, full, pls, "select"))
+                    elif not legit_refusal(o, crit, pls):
+                        bad.append((idx, f"C12:unjustified-refusal:{o['kind']}",
+                                    f"select({crit}) on a {o['kind']} collection holding selection {o['chain']} refuses with ValueError "
+                                    f"although the collection can honour the request"))
                     continue
                 if o["kind"] in INPLACE:
                     o["chain"].append(crit)
@@ -666,6 +774,11 @@ def oracle(case, impl):
                         for cr in o["chain"]:
                             crit.update(cr)
                         bad.append(classify_crash(idx, cls, o, crit, pls, "signatures"))
+                    elif op == "sigs" and not legit_refusal(dict(o, chain=o["chain"][:-1]), o["chain"][-1] if o["chain"] else {}, pls,
+                                                           at_iteration=True):
+                        bad.append((idx, f"C12:unjustified-refusal:{o['kind']}",
+                                    f"signatures() of a {o['kind']} collection after select {o['chain']} raises ValueError although the "
+                                    f"request is coherent"))
                     if op == "sigs":
                         o["dead"] = True
                     continue
@@ -700,6 +813,90 @@ def oracle(case, impl):
         except (KeyError, ValueError, IndexError):
             continue
     return bad
+
+
+def _truthy_int(cr, k):
+    return int(cr.get(k, 0) or 0) != 0
+
+
+def _merge_conflict(kind, chain, crit):
+    """the documented refusal of the containers that merge selection dicts: the same key with another value"""
+    d = {}
+    for cr in chain:
+        for k, v in cr.items():
+            if kind == "sqlite" and k in ("n", "a"):
+                continue
+            d[k] = v
+    if not d and kind != "lazy":
+        return False
+    for k, v in crit.items():
+        if kind == "sqlite" and k in ("n", "a"):
+            continue
+        if k in d:
+            if kind == "lazy":
+                if d[k] != v:
+                    return True
+            elif d[k] != "None" and d[k] != v:
+                return True
+    return False
+
+
+def legit_refusal(o, crit, pls, at_iteration=False):
+    """may this container refuse this request with ValueError?  (Index.select docstrings: incompatible requirements;
+    `containment` without `scaled` for the reference predicate; indexed databases refuse what their index cannot serve)"""
+    kind = o["kind"]
+    chain = o["chain"]
+    merged = {}
+    for cr in chain + [crit]:
+        merged.update(cr)
+    cont_without_scaled = merged.get("c") == "1" and not _truthy_int(merged, "s")
+    if kind == "linear":
+        return crit.get("c") == "1" and not _truthy_int(crit, "s")
+    if kind in ("lazy", "zipnm"):
+        if at_iteration:
+            return cont_without_scaled
+        return _merge_conflict(kind, chain, crit)
+    if kind in ("multi", "multidir", "multipl", "zip", "smi"):
+        return False
+    if kind == "sqlmf":
+        return _merge_conflict(kind, chain, crit)
+    if kind == "sqlite":
+        return _truthy_int(crit, "n") or crit.get("a") == "1" or _merge_conflict(kind, chain, crit)
+    if kind in ("sbt", "sbtz", "lca"):
+        held = sum(1 for cr in chain if "p" in cr)
+        if "p" in crit and held >= 1:
+            return True
+        if crit.get("a") == "1":
+            return True
+        if kind == "lca":
+            k0, m0, sc0 = o["params"]
+            if _truthy_int(crit, "n"):
+                return True
+            if int(crit.get("s", 0)) > sc0 and crit.get("c") != "1":
+                return True
+            if crit.get("k") not in (None, "None") and int(crit["k"]) != k0:
+                return True
+            if crit.get("m") not in (None, "None") and crit["m"] != m0:
+                return True
+            return False
+        sel = [s for s in o["members"] if all(sat(s, {"p": cr["p"]}, pls) for cr in chain if "p" in cr)]
+        if not sel:
+            return False
+        t = sel[0]
+        if crit.get("k") not in (None, "None") and int(crit["k"]) != t.ksize:
+            return True
+        if crit.get("m") not in (None, "None") and crit["m"] != t.mol:
+            return True
+        if crit.get("c") == "1" and not t.scaled:
+            return True
+        n = int(crit.get("n", 0))
+        if n and (not t.num or n != t.num):
+            return True
+        sc = int(crit.get("s", 0))
+        if sc and (not t.scaled or (sc > t.scaled and crit.get("c") != "1")):
+            return True
+        return False
+    return True
 
 
 def classify_crash(idx, cls, o, crit, pls, where):
